@@ -67,7 +67,9 @@ class WbDecWorld(World):
             subs.append({"sparse": sparse, "dw": sdw, "g": sg, "aw": saw, "feats": sorted(sf),
                          "name": None if rng.chance(0.5) else f"w{i}", "addr": addr,
                          "align_to": rng.range(0, 4) if rng.chance(0.15) else None,
-                         "readd": int(rng.chance(0.08))})
+                         "readd": int(rng.chance(0.08)),
+                         # the subordinate's own map may be created with an alignment
+                         "sal": rng.range(1, 3) if rng.chance(0.15) else 0})
         return {"aw": aw, "dw": dw, "g": g, "feats": sorted(feats), "al": al, "subs": subs,
                 "feats_as": rng.choice(["str", "str", "enum"]),
                 "own_map": int(rng.chance(0.08)), "twin_decoder": int(rng.chance(0.1)),
@@ -159,7 +161,10 @@ class WbDecWorld(World):
                                         granularity=sc["g"], features=spell(sc["feats"]),
                                         path=(f"s{i}",))
                 smaw = max(1, sc["aw"] + log2(sc["dw"] // sc["g"]))
-                sb.memory_map = MemoryMap(addr_width=smaw, data_width=sc["g"])
+                sb.memory_map = MemoryMap(addr_width=smaw, data_width=sc["g"],
+                                          alignment=int(sc.get("sal") or 0))
+                if sc.get("sal"):
+                    stats.probe("subordinate_map_with_alignment")
                 if sc.get("align_to") is not None:
                     dut.align_to(sc["align_to"])
                 kw = {}
